@@ -255,4 +255,774 @@ theorem formatLoop_items (its : List Item) (h : ∀ it ∈ its, ItemOK it) (t : 
     have ha := appendInt_fits k (t.get k) (hfit (p, k) (by simp))
     simp only [formatLoop, layoutOf, hn, ha, ih hr (fun it hi => hfit it (by simp [hi])) f hlen, render]
 
+
+/-! ### digits -/
+
+theorem lt10_cases {d : Nat} (h : d < 10) : d = 0 ∨ d = 1 ∨ d = 2 ∨ d = 3 ∨ d = 4 ∨ d = 5 ∨ d = 6 ∨ d = 7 ∨ d = 8 ∨ d = 9 := by omega
+
+theorem digit_ofNat {d : Nat} (h : d < 10) :
+    isDigit (UInt8.ofNat (48 + d)) = true ∧ Spec.Lang.digit (UInt8.ofNat (48 + d)) = true ∧ dval (UInt8.ofNat (48 + d)) = d
+      ∧ (UInt8.ofNat (48 + d)).toNat - 48 = d ∧ UInt8.ofNat (48 + d) ≠ 32 := by
+  rcases lt10_cases h with rfl | rfl | rfl | rfl | rfl | rfl | rfl | rfl | rfl | rfl <;> decide
+
+theorem isDigit_bounds {a : UInt8} (h : isDigit a = true) : 48 ≤ a.toNat ∧ a.toNat ≤ 57 := by
+  simp only [isDigit, Bool.and_eq_true, decide_eq_true_eq] at h
+  exact ⟨by simpa using UInt8.le_iff_toNat_le.mp h.1, by simpa using UInt8.le_iff_toNat_le.mp h.2⟩
+
+theorem specDigit_eq (a : UInt8) : Spec.Lang.digit a = isDigit a := rfl
+
+theorem dval_lt {a : UInt8} (h : isDigit a = true) : dval a < 10 := by
+  have := isDigit_bounds h; unfold dval; omega
+
+theorem ofNat_dval {a : UInt8} (h : isDigit a = true) : UInt8.ofNat (48 + dval a) = a := by
+  have hb := isDigit_bounds h
+  have : 48 + dval a = a.toNat := by unfold dval; omega
+  rw [this]; exact UInt8.ofNat_toNat
+
+
+/-! ### one element: rendering and reading back -/
+
+def rangeOK : Std → Nat → Prop
+  | .longYear, n => n < 10000
+  | .zeroMonth, n => 1 ≤ n ∧ n ≤ 12
+  | .zeroDay, n => n < 100
+  | .hour, n => n < 24
+  | .zeroMinute, n => n < 60
+  | .zeroSecond, n => n < 60
+
+theorem rangeOK_fits {k : Std} {n : Nat} (h : rangeOK k n) : fits k n := by
+  cases k <;> simp [rangeOK, fits] at h ⊢ <;> omega
+
+theorem padOf_two (k : Std) (hk : k ≠ .longYear) (n : Nat) (h : n < 100) :
+    padOf k n = [UInt8.ofNat (48 + n / 10), UInt8.ofNat (48 + n % 10)] := by
+  cases k <;> first | exact absurd rfl hk | simp [padOf, appendInt, width, h]
+
+theorem padOf_four (n : Nat) (h : n < 10000) :
+    padOf .longYear n = [UInt8.ofNat (48 + n / 1000), UInt8.ofNat (48 + n / 100 % 10), UInt8.ofNat (48 + n / 10 % 10), UInt8.ofNat (48 + n % 10)] := by
+  simp [padOf, appendInt, width, h]
+
+theorem getnum_two (a c : UInt8) (rest : Bytes) (fixed : Bool) (ha : isDigit a = true) (hc : isDigit c = true) :
+    getnum (a :: c :: rest) fixed = some (dval a * 10 + dval c, rest) := by
+  simp [getnum, ha, hc]
+
+theorem readStd_pad (k : Std) (n : Nat) (h : rangeOK k n) (rest : Bytes) :
+    readStd k (padOf k n ++ rest) = some (n, rest) := by
+  by_cases hk : k = .longYear
+  · subst hk
+    simp only [rangeOK] at h
+    rw [padOf_four n h]
+    have d1 := digit_ofNat (d := n / 1000) (by omega)
+    have d2 := digit_ofNat (d := n / 100 % 10) (by omega)
+    have d3 := digit_ofNat (d := n / 10 % 10) (by omega)
+    have d4 := digit_ofNat (d := n % 10) (by omega)
+    have hv : ((n / 1000 * 10 + n / 100 % 10) * 10 + n / 10 % 10) * 10 + n % 10 = n := by omega
+    simp only [readStd, List.cons_append, List.nil_append, d1.1, d2.1, d3.1, d4.1, Bool.and_self, if_true, num4,
+      d1.2.2.1, d2.2.2.1, d3.2.2.1, d4.2.2.1, hv]
+  · have hn : n < 100 := by
+      cases k <;> first | exact absurd rfl hk | (simp [rangeOK] at h; omega)
+    rw [padOf_two k hk n hn]
+    have d1 := digit_ofNat (d := n / 10) (by omega)
+    have d2 := digit_ofNat (d := n % 10) (by omega)
+    have hv : dval (UInt8.ofNat (48 + n / 10)) * 10 + dval (UInt8.ofNat (48 + n % 10)) = n := by
+      rw [d1.2.2.1, d2.2.2.1]; omega
+    have hg := fun fixed => getnum_two _ _ rest fixed d1.1 d2.1
+    cases k with
+    | longYear => exact absurd rfl hk
+    | zeroMonth =>
+      simp only [rangeOK] at h
+      simp only [readStd, List.cons_append, List.nil_append, hg, hv, Option.bind]
+      have : (n == 0 || decide (12 < n)) = false := by simp; omega
+      simp [this]
+    | zeroDay => simp only [readStd, List.cons_append, List.nil_append, hg, hv]
+    | hour =>
+      simp only [rangeOK] at h
+      simp only [readStd, List.cons_append, List.nil_append, hg, hv, Option.bind]
+      have : ¬ (24 ≤ n) := by omega
+      simp [this]
+    | zeroMinute =>
+      simp only [rangeOK] at h
+      simp only [readStd, List.cons_append, List.nil_append, hg, hv, Option.bind]
+      have : ¬ (60 ≤ n) := by omega
+      simp [this]
+    | zeroSecond =>
+      simp only [rangeOK] at h
+      simp only [readStd, List.cons_append, List.nil_append, hg, hv, Option.bind]
+      have : ¬ (60 ≤ n) := by omega
+      simp [this]
+
+theorem getnum_range {v : Bytes} {fixed : Bool} {n : Nat} {v' : Bytes} (h : getnum v fixed = some (n, v')) : n < 100 := by
+  unfold getnum at h
+  split at h
+  · rename_i a c r
+    by_cases ha : isDigit a = true
+    · by_cases hc : isDigit c = true
+      · simp [ha, hc] at h
+        have := dval_lt ha; have := dval_lt hc; omega
+      · simp [ha, hc] at h
+        have := dval_lt ha; omega
+    · simp [ha] at h
+  · rename_i a
+    by_cases ha : isDigit a = true
+    · simp [ha] at h
+      have := dval_lt ha; omega
+    · simp [ha] at h
+  · simp at h
+
+theorem bind_range {v : Bytes} {fixed : Bool} {n : Nat} {v' : Bytes} (bad : Nat → Bool)
+    (h : ((getnum v fixed).bind fun (x : Nat × Bytes) => if bad x.1 then none else some (x.1, x.2)) = some (n, v')) :
+    n < 100 ∧ bad n = false := by
+  cases hg : getnum v fixed with
+  | none => simp [hg] at h
+  | some nv =>
+    rcases nv with ⟨m, r⟩
+    have hm := getnum_range hg
+    simp only [hg, Option.bind] at h
+    by_cases hb : bad m = true
+    · simp [hb] at h
+    · simp [hb] at h; obtain ⟨rfl, _⟩ := h; exact ⟨hm, by simpa using hb⟩
+
+theorem readStd_range {k : Std} {v : Bytes} {n : Nat} {v' : Bytes} (h : readStd k v = some (n, v')) : rangeOK k n := by
+  cases k with
+  | longYear =>
+    simp only [readStd] at h
+    split at h
+    · rename_i a c d e r
+      split at h
+      · rename_i hd
+        simp only [Bool.and_eq_true] at hd
+        simp at h
+        have := dval_lt hd.1.1.1; have := dval_lt hd.1.1.2; have := dval_lt hd.1.2; have := dval_lt hd.2
+        simp only [rangeOK, ← h.1, num4]; omega
+      · simp at h
+    · simp at h
+  | zeroMonth =>
+    simp only [readStd, Option.bind] at h
+    split at h
+    · simp at h
+    · rename_i nv hg
+      rcases nv with ⟨m, r⟩
+      have hm := getnum_range hg
+      simp only at h
+      split at h
+      · simp at h
+      · rename_i hc; simp at h; obtain ⟨rfl, _⟩ := h; simp only [rangeOK]; simp at hc; omega
+  | zeroDay => exact getnum_range h
+  | hour =>
+    simp only [readStd, Option.bind] at h
+    split at h
+    · simp at h
+    · rename_i nv hg
+      rcases nv with ⟨m, r⟩
+      have hm := getnum_range hg
+      simp only at h
+      split at h
+      · simp at h
+      · rename_i hc; simp at h; obtain ⟨rfl, _⟩ := h; simp only [rangeOK]; omega
+  | zeroMinute =>
+    simp only [readStd, Option.bind] at h
+    split at h
+    · simp at h
+    · rename_i nv hg
+      rcases nv with ⟨m, r⟩
+      have hm := getnum_range hg
+      simp only at h
+      split at h
+      · simp at h
+      · rename_i hc; simp at h; obtain ⟨rfl, _⟩ := h; simp only [rangeOK]; omega
+  | zeroSecond =>
+    simp only [readStd, Option.bind] at h
+    split at h
+    · simp at h
+    · rename_i nv hg
+      rcases nv with ⟨m, r⟩
+      have hm := getnum_range hg
+      simp only at h
+      split at h
+      · simp at h
+      · rename_i hc; simp at h; obtain ⟨rfl, _⟩ := h; simp only [rangeOK]; omega
+
+
+/-! ### literal text -/
+
+theorem dropWhile_append_ne (q : UInt8 → Bool) (ps r : Bytes) (hr : ∀ x t, r = x :: t → q x = false) :
+    (ps ++ r).dropWhile q = ps.dropWhile q ++ r := by
+  induction ps with
+  | nil =>
+    rcases r with _ | ⟨x, t⟩
+    · rfl
+    · simp [List.dropWhile, hr x t rfl]
+  | cons a ps ih =>
+    simp only [List.cons_append, List.dropWhile]
+    split
+    · exact ih
+    · rfl
+
+theorem dropWhile_length_le (q : UInt8 → Bool) (ps : Bytes) : (ps.dropWhile q).length ≤ ps.length := by
+  induction ps with
+  | nil => simp
+  | cons a ps ih => simp only [List.dropWhile]; split <;> simp <;> omega
+
+/-- `skip` removes a prefix that is literally there, provided the text behind it does not begin with a blank -/
+theorem skip_self (r : Bytes) (hr : ∀ x t, r = x :: t → x ≠ 32) (f : Nat) (p : Bytes) (hf : p.length ≤ f) :
+    skip f (p ++ r) p = some r := by
+  induction f generalizing p with
+  | zero =>
+    have : p = [] := by simpa using hf
+    subst this; simp [skip]
+  | succ f ih =>
+    rcases p with _ | ⟨c, ps⟩
+    · simp [skip]
+    · by_cases hc : c = 32
+      · subst hc
+        have hq : ∀ x t, r = x :: t → (x == 32) = false := fun x t e => by simpa using hr x t e
+        have h1 : cutspace ((32 :: ps) ++ r) = cutspace (32 :: ps) ++ r := dropWhile_append_ne _ _ _ hq
+        have hl : (cutspace (32 :: ps)).length ≤ f := by
+          have := dropWhile_length_le (· == 32) ps
+          simp only [cutspace, List.dropWhile, beq_self_eq_true] at this ⊢
+          simp at hf; omega
+        simp only [List.cons_append, skip, beq_self_eq_true, if_true, bne_self_eq_false, Bool.false_eq_true, if_false]
+        simp only [List.cons_append] at h1
+        rw [h1]
+        exact ih _ hl
+      · have : (c == 32) = false := by simpa using hc
+        simp only [List.cons_append, skip, this, Bool.false_eq_true, if_false, bne_self_eq_false]
+        exact ih ps (by simp at hf; omega)
+
+theorem padOf_head (k : Std) (n : Nat) (h : rangeOK k n) (rest : Bytes) :
+    ∀ x t, padOf k n ++ rest = x :: t → x ≠ 32 := by
+  intro x t e
+  by_cases hk : k = .longYear
+  · subst hk
+    simp only [rangeOK] at h
+    rw [padOf_four n h] at e
+    simp only [List.cons_append, List.cons.injEq] at e
+    rw [← e.1]; exact (digit_ofNat (d := n / 1000) (by omega)).2.2.2.2
+  · have hn : n < 100 := by
+      cases k <;> first | exact absurd rfl hk | (simp [rangeOK] at h; omega)
+    rw [padOf_two k hk n hn] at e
+    simp only [List.cons_append, List.cons.injEq] at e
+    rw [← e.1]; exact (digit_ofNat (d := n / 10) (by omega)).2.2.2.2
+
+/-! ### `Tm` as a function of the element -/
+
+theorem get_set_same (t : Tm) (k : Std) (n : Nat) : (t.set k n).get k = n := by
+  cases k <;> simp [Tm.set, Tm.get]
+
+theorem get_set_ne (t : Tm) (k k' : Std) (n : Nat) (h : k' ≠ k) : (t.set k n).get k' = t.get k' := by
+  cases k <;> cases k' <;> first | exact absurd rfl h | simp [Tm.set, Tm.get]
+
+def kinds (its : List Item) : List Std := its.map (·.2)
+
+/-- the seconds, if present, are the last element -/
+def SecLast : List Item → Prop
+  | [] => True
+  | (_, k) :: r => (k = .zeroSecond → r = []) ∧ SecLast r
+
+theorem fracDrop_nil : fracDrop [] = [] := rfl
+
+/-- reading back a rendering -/
+theorem parseItems_render (its : List Item) (T : Tm) (hr : ∀ it ∈ its, rangeOK it.2 (T.get it.2))
+    (hnd : (kinds its).Nodup) (hsl : SecLast its) (t0 : Tm) :
+    ∃ t', parseItems its (render its T) t0 = some t' ∧ (∀ k ∈ kinds its, t'.get k = T.get k) ∧
+      (∀ k, k ∉ kinds its → t'.get k = t0.get k) := by
+  induction its generalizing t0 with
+  | nil => exact ⟨t0, by simp [parseItems, render], by simp [kinds], fun _ _ => rfl⟩
+  | cons it r ih =>
+    rcases it with ⟨p, k⟩
+    have hk := hr (p, k) (by simp)
+    simp only at hk
+    have hs := skip_self (padOf k (T.get k) ++ render r T) (padOf_head k _ hk _) (p.length + 1) p (by omega)
+    have hrd := readStd_pad k (T.get k) hk (render r T)
+    simp only [kinds, List.map_cons, List.nodup_cons] at hnd
+    have hv : (if k == Std.zeroSecond then fracDrop (render r T) else render r T) = render r T := by
+      by_cases hz : k = .zeroSecond
+      · have := hsl.1 hz; subst this; simp [render, fracDrop_nil]
+      · have : (k == Std.zeroSecond) = false := by simpa using hz
+        simp [this]
+    obtain ⟨t', h1, h2, h3⟩ := ih (fun it hi => hr it (by simp [hi])) hnd.2 hsl.2 (t0.set k (T.get k))
+    refine ⟨t', ?_, ?_, ?_⟩
+    · simp only [parseItems, render, List.append_assoc, hs, hrd, hv, h1]
+    · intro k' hk'
+      simp only [kinds, List.map_cons, List.mem_cons] at hk'
+      rcases hk' with rfl | hk'
+      · rw [h3 _ hnd.1, get_set_same]
+      · exact h2 k' hk'
+    · intro k' hk'
+      simp only [kinds, List.map_cons, List.mem_cons, not_or] at hk'
+      rw [h3 k' hk'.2, get_set_ne _ _ _ _ hk'.1]
+
+/-- what a successful parse tells about the fields -/
+theorem parseItems_range (its : List Item) (hnd : (kinds its).Nodup) (v : Bytes) (t0 t' : Tm)
+    (h : parseItems its v t0 = some t') :
+    (∀ k ∈ kinds its, rangeOK k (t'.get k)) ∧ (∀ k, k ∉ kinds its → t'.get k = t0.get k) := by
+  induction its generalizing v t0 with
+  | nil =>
+    simp only [parseItems] at h
+    split at h
+    · simp at h; subst h; exact ⟨by simp [kinds], fun _ _ => rfl⟩
+    · simp at h
+  | cons it r ih =>
+    rcases it with ⟨p, k⟩
+    simp only [parseItems] at h
+    split at h
+    · simp at h
+    · rename_i v1 hs
+      split at h
+      · simp at h
+      · rename_i n v2 hrd
+        simp only [kinds, List.map_cons, List.nodup_cons] at hnd
+        obtain ⟨h2, h3⟩ := ih hnd.2 _ _ h
+        have hrng := readStd_range hrd
+        constructor
+        · intro k' hk'
+          simp only [kinds, List.map_cons, List.mem_cons] at hk'
+          rcases hk' with rfl | hk'
+          · rw [h3 _ hnd.1, get_set_same]; exact hrng
+          · exact h2 k' hk'
+        · intro k' hk'
+          simp only [kinds, List.map_cons, List.mem_cons, not_or] at hk'
+          rw [h3 k' hk'.2, get_set_ne _ _ _ _ hk'.1]
+
+theorem render_congr (its : List Item) (t t' : Tm) (h : ∀ k ∈ kinds its, t.get k = t'.get k) : render its t = render its t' := by
+  induction its with
+  | nil => rfl
+  | cons it r ih =>
+    rcases it with ⟨p, k⟩
+    simp only [render]
+    rw [h k (by simp [kinds]), ih (fun k hk => h k (by simp [kinds] at hk ⊢; exact Or.inr hk))]
+
+
+/-! ### the whole call -/
+
+def dayOK (T : Tm) : Prop := 1 ≤ T.get .zeroDay ∧ T.get .zeroDay ≤ daysIn (T.get .zeroMonth) (T.get .longYear)
+
+theorem finish_inv (t t'' : Tm) (h : finish t = some t'') : dayOK t ∧ ∀ k, t''.get k = t.get k := by
+  simp only [finish] at h
+  split at h
+  · simp at h
+  · rename_i hc
+    simp at h; subst h
+    refine ⟨?_, fun k => by cases k <;> simp [Tm.get]⟩
+    simp only [Bool.or_eq_true, decide_eq_true_eq, not_or] at hc
+    simp only [dayOK, Tm.get]; omega
+
+theorem finish_some (t : Tm) (h : dayOK t) : ∃ t'', finish t = some t'' := by
+  simp only [dayOK, Tm.get] at h
+  have : ¬ ((decide (t.day.getD 1 < 1) || decide (t.day.getD 1 > daysIn (t.month.getD 1) t.year)) = true) := by
+    simp only [Bool.or_eq_true, decide_eq_true_eq, not_or]; omega
+  refine ⟨{ t with month := some (t.month.getD 1), day := some (t.day.getD 1) }, ?_⟩
+  simp [finish]; omega
+
+/-- `s` is the rendering of in-range fields forming a real calendar day -/
+def Canon (its : List Item) (s : Bytes) : Prop :=
+  ∃ T : Tm, s = render its T ∧ (∀ k ∈ kinds its, rangeOK k (T.get k)) ∧
+    (∀ k, k ∉ kinds its → T.get k = ({} : Tm).get k) ∧ dayOK T
+
+theorem layout_len (its : List Item) : its.length ≤ (layoutOf its).length := by
+  induction its with
+  | nil => simp
+  | cons it r ih =>
+    rcases it with ⟨p, k⟩
+    have : 2 ≤ (stdText k).length := by cases k <;> simp [stdText]
+    simp only [layoutOf, List.length_append, List.length_cons]; omega
+
+theorem dayOK_congr (t T : Tm) (h : ∀ k, t.get k = T.get k) : dayOK t ↔ dayOK T := by
+  simp only [dayOK, h]
+
+theorem model_iff (its : List Item) (hOK : ∀ it ∈ its, ItemOK it) (hnd : (kinds its).Nodup) (hsl : SecLast its) (s : Bytes) :
+    (∃ b, parseStrict (layoutOf its) s = some b) ∧ (parseStrict (layoutOf its) s = some true ↔ Canon its s) := by
+  have hfuel : its.length + 1 ≤ (layoutOf its).length + 1 := by have := layout_len its; omega
+  -- what a canonical string parses to
+  have hcanon : ∀ T : Tm, s = render its T → (∀ k ∈ kinds its, rangeOK k (T.get k)) →
+      (∀ k, k ∉ kinds its → T.get k = ({} : Tm).get k) →
+      ∃ t, parseItems its s {} = some t ∧ ∀ k, t.get k = T.get k := by
+    intro T hs hr hd
+    obtain ⟨t, h1, h2, h3⟩ := parseItems_render its T (fun it hi => hr it.2 (by simp [kinds]; exact ⟨it.1, hi⟩)) hnd hsl {}
+    refine ⟨t, by rw [hs]; exact h1, fun k => ?_⟩
+    by_cases hk : k ∈ kinds its
+    · exact h2 k hk
+    · rw [h3 k hk, hd k hk]
+  simp only [parseStrict, parseLoop_items its hOK _ hfuel]
+  cases hp : parseItems its s {} with
+  | none =>
+    refine ⟨⟨false, rfl⟩, ⟨fun h => by simp at h, fun ⟨T, hs, hr, hd, _⟩ => ?_⟩⟩
+    obtain ⟨t, ht, _⟩ := hcanon T hs hr hd
+    rw [hp] at ht; simp at ht
+  | some t =>
+    obtain ⟨hrng, hframe⟩ := parseItems_range its hnd s {} t hp
+    simp only
+    cases hfin : finish t with
+    | none =>
+      refine ⟨⟨false, rfl⟩, ⟨fun h => by simp at h, fun ⟨T, hs, hr, hd, hday⟩ => ?_⟩⟩
+      obtain ⟨t2, ht, hg⟩ := hcanon T hs hr hd
+      rw [hp] at ht; simp at ht; subst ht
+      obtain ⟨t'', h''⟩ := finish_some t ((dayOK_congr t T hg).mpr hday)
+      rw [hfin] at h''; simp at h''
+    | some t'' =>
+      obtain ⟨hday, hget⟩ := finish_inv t t'' hfin
+      have hfit : ∀ it ∈ its, fits it.2 (t''.get it.2) := fun it hi => by
+        rw [hget]; exact rangeOK_fits (hrng it.2 (by simp [kinds]; exact ⟨it.1, hi⟩))
+      simp only [formatLoop_items its hOK t'' hfit _ hfuel, Option.map]
+      refine ⟨⟨_, rfl⟩, ⟨fun h => ?_, fun ⟨T, hs, hr, hd, hdayT⟩ => ?_⟩⟩
+      · simp at h
+        refine ⟨t'', h.symm, fun k hk => by rw [hget]; exact hrng k hk, fun k hk => by rw [hget]; exact hframe k hk, ?_⟩
+        exact (dayOK_congr t'' t hget).mpr hday
+      · obtain ⟨t2, ht, hg⟩ := hcanon T hs hr hd
+        rw [hp] at ht; simp at ht; subst ht
+        have : render its t'' = s := by
+          rw [hs]; exact render_congr its t'' T (fun k _ => by rw [hget, hg])
+        simp [this]
+
+
+/-! ### the independent reading (`Spec.Lang.fields`) of a rendering -/
+
+open Spec.Lang in
+theorem num_two (a c : UInt8) : num [a, c] = dval a * 10 + dval c := by simp [num, dval]
+open Spec.Lang in
+theorem num_four (a c d e : UInt8) : num [a, c, d, e] = num4 a c d e := by simp [num, num4, dval]
+
+/-- number → text → number -/
+theorem pad_facts (k : Std) (n : Nat) (h : fits k n) :
+    (padOf k n).length = width k ∧ (padOf k n).all Spec.Lang.digit = true ∧ Spec.Lang.num (padOf k n) = n := by
+  by_cases hk : k = .longYear
+  · subst hk
+    simp only [fits, if_true] at h
+    rw [padOf_four n h]
+    have d1 := digit_ofNat (d := n / 1000) (by omega)
+    have d2 := digit_ofNat (d := n / 100 % 10) (by omega)
+    have d3 := digit_ofNat (d := n / 10 % 10) (by omega)
+    have d4 := digit_ofNat (d := n % 10) (by omega)
+    refine ⟨rfl, by simp only [List.all_cons, List.all_nil, d1.2.1, d2.2.1, d3.2.1, d4.2.1, Bool.and_self], ?_⟩
+    rw [num_four, num4, d1.2.2.1, d2.2.2.1, d3.2.2.1, d4.2.2.1]; omega
+  · simp only [fits, hk, if_false] at h
+    rw [padOf_two k hk n h]
+    have d1 := digit_ofNat (d := n / 10) (by omega)
+    have d2 := digit_ofNat (d := n % 10) (by omega)
+    refine ⟨by cases k <;> first | exact absurd rfl hk | rfl, by simp only [List.all_cons, List.all_nil, d1.2.1, d2.2.1, Bool.and_self], ?_⟩
+    rw [num_two, d1.2.2.1, d2.2.2.1]; omega
+
+/-- text → number → text -/
+theorem num_facts (k : Std) (f : Bytes) (hl : f.length = width k) (hd : f.all Spec.Lang.digit = true) :
+    padOf k (Spec.Lang.num f) = f ∧ fits k (Spec.Lang.num f) := by
+  by_cases hk : k = .longYear
+  · subst hk
+    rcases f with _ | ⟨a, _ | ⟨c, _ | ⟨d, _ | ⟨e, _ | ⟨x, t⟩⟩⟩⟩⟩ <;> simp [width] at hl
+    simp only [List.all_cons, List.all_nil, Bool.and_true, Bool.and_eq_true, specDigit_eq] at hd
+    obtain ⟨ha, hc, hd', he⟩ := hd
+    have := dval_lt ha; have := dval_lt hc; have := dval_lt hd'; have := dval_lt he
+    have hn : num4 a c d e < 10000 := by simp only [num4]; omega
+    rw [num_four]
+    refine ⟨?_, by simp [fits, hn]⟩
+    rw [padOf_four _ hn]
+    have e1 : num4 a c d e / 1000 = dval a := by simp only [num4]; omega
+    have e2 : num4 a c d e / 100 % 10 = dval c := by simp only [num4]; omega
+    have e3 : num4 a c d e / 10 % 10 = dval d := by simp only [num4]; omega
+    have e4 : num4 a c d e % 10 = dval e := by simp only [num4]; omega
+    rw [e1, e2, e3, e4, ofNat_dval ha, ofNat_dval hc, ofNat_dval hd', ofNat_dval he]
+  · have hw : width k = 2 := by cases k <;> first | exact absurd rfl hk | rfl
+    rw [hw] at hl
+    rcases f with _ | ⟨a, _ | ⟨c, _ | ⟨x, t⟩⟩⟩ <;> simp at hl
+    simp only [List.all_cons, List.all_nil, Bool.and_true, Bool.and_eq_true, specDigit_eq] at hd
+    obtain ⟨ha, hc⟩ := hd
+    have := dval_lt ha; have := dval_lt hc
+    rw [num_two]
+    have hn : dval a * 10 + dval c < 100 := by omega
+    refine ⟨?_, by simp [fits, hk, hn]⟩
+    rw [padOf_two k hk _ hn]
+    have e1 : (dval a * 10 + dval c) / 10 = dval a := by omega
+    have e2 : (dval a * 10 + dval c) % 10 = dval c := by omega
+    rw [e1, e2, ofNat_dval ha, ofNat_dval hc]
+
+def patOf (its : List Item) : List (Nat ⊕ Bytes) := its.flatMap fun it => [Sum.inr it.1, Sum.inl (width it.2)]
+
+theorem isPrefixOf_append (p x : Bytes) : p.isPrefixOf (p ++ x) = true := by
+  induction p with
+  | nil => simp [List.isPrefixOf]
+  | cons a p ih => simp [List.isPrefixOf, ih]
+
+theorem isPrefixOf_split (p s : Bytes) (h : p.isPrefixOf s = true) : s = p ++ s.drop p.length := by
+  induction p generalizing s with
+  | nil => simp
+  | cons a p ih =>
+    rcases s with _ | ⟨b, s⟩
+    · simp [List.isPrefixOf] at h
+    · simp only [List.isPrefixOf, Bool.and_eq_true, beq_iff_eq] at h
+      simp only [List.length_cons, List.drop_succ_cons, List.cons_append, ← ih s h.2, h.1]
+
+theorem fields_render (its : List Item) (T : Tm) (hfit : ∀ it ∈ its, fits it.2 (T.get it.2)) :
+    Spec.Lang.fields (patOf its) (render its T) = some (its.map fun it => T.get it.2) := by
+  induction its with
+  | nil => simp [patOf, render, Spec.Lang.fields]
+  | cons it r ih =>
+    rcases it with ⟨p, k⟩
+    obtain ⟨hl, hd, hn⟩ := pad_facts k (T.get k) (hfit (p, k) (by simp))
+    have ih' := ih (fun it hi => hfit it (by simp [hi]))
+    simp only [patOf, List.flatMap_cons, List.cons_append, List.nil_append] at ih' ⊢
+    simp only [render, Spec.Lang.fields, List.append_assoc, isPrefixOf_append, if_true, List.drop_left]
+    rw [← hl, List.take_left, List.drop_left]
+    simp only [beq_self_eq_true, hd, Bool.and_self, if_true, ih', hn, Option.map, List.map_cons]
+
+theorem fields_inv (its : List Item) (T : Tm) (s : Bytes) (ns : List Nat)
+    (h : Spec.Lang.fields (patOf its) s = some ns) (hT : (its.map fun it => T.get it.2) = ns) :
+    s = render its T ∧ ∀ it ∈ its, fits it.2 (T.get it.2) := by
+  induction its generalizing s ns with
+  | nil =>
+    simp only [patOf, List.flatMap_nil, Spec.Lang.fields] at h
+    split at h
+    · rename_i he; exact ⟨by simpa [render] using he, by simp⟩
+    · simp at h
+  | cons it r ih =>
+    rcases it with ⟨p, k⟩
+    simp only [patOf, List.flatMap_cons, List.cons_append, List.nil_append, Spec.Lang.fields] at h
+    split at h
+    · rename_i hp
+      split at h
+      · rename_i hf
+        simp only [Bool.and_eq_true, beq_iff_eq] at hf
+        cases hrest : Spec.Lang.fields (List.flatMap (fun it => [Sum.inr it.1, Sum.inl (width it.2)]) r)
+            (List.drop (width k) (List.drop p.length s)) with
+        | none => rw [hrest] at h; simp at h
+        | some ns' =>
+          rw [hrest] at h; simp only [Option.map, Option.some.injEq] at h
+          subst h
+          simp only [List.map_cons, List.cons.injEq] at hT
+          obtain ⟨hr, hfr⟩ := ih _ ns' hrest hT.2
+          obtain ⟨hpad, hfit⟩ := num_facts k _ hf.1 hf.2
+          rw [← hT.1] at hpad hfit
+          have e1 := isPrefixOf_split p s hp
+          have e2 : List.drop p.length s = List.take (width k) (List.drop p.length s) ++ List.drop (width k) (List.drop p.length s) :=
+            (List.take_append_drop _ _).symm
+          refine ⟨?_, ?_⟩
+          · simp only [render]
+            rw [hpad, ← hr, List.append_assoc, ← e2, ← e1]
+          · intro it hi
+            simp only [List.mem_cons] at hi
+            rcases hi with rfl | hi
+            · exact hfit
+            · exact hfr it hi
+      · simp at h
+    · simp at h
+
+theorem fields_inr_nil (rest : List (Nat ⊕ Bytes)) (s : Bytes) :
+    Spec.Lang.fields (Sum.inr [] :: rest) s = Spec.Lang.fields rest s := by
+  simp [Spec.Lang.fields, List.isPrefixOf]
+
+theorem isLeap_eq (y : Nat) : isLeap y = Spec.Lang.leap y := by
+  unfold isLeap Spec.Lang.leap
+  rw [Bool.eq_iff_iff]
+  simp only [Bool.and_eq_true, Bool.or_eq_true, beq_iff_eq, bne_iff_ne, ne_eq]
+  omega
+
+theorem daysIn_eq (m y : Nat) : daysIn m y = Spec.Lang.daysIn y m := by
+  unfold daysIn Spec.Lang.daysIn
+  rw [isLeap_eq]
+  by_cases h2 : m = 2
+  · subst h2; cases Spec.Lang.leap y <;> simp
+  · have : (m == 2) = false := by simpa using h2
+    simp [this]
+
+theorem conclude (x : Option Bool) (sp : Bool) (P : Prop) (hb : ∃ b, x = some b) (h1 : x = some true ↔ P)
+    (h2 : sp = true ↔ P) : x = some sp := by
+  obtain ⟨b, rfl⟩ := hb
+  cases b <;> cases sp <;> simp_all
+
+theorem default_get (k : Std) : ({} : Tm).get k = if k = .zeroMonth ∨ k = .zeroDay then 1 else 0 := by
+  cases k <;> simp [Tm.get]
+
+
+/-! ### the four rules -/
+
+def itsYear : List Item := [([], .longYear)]
+def itsY2M (sep : Bytes) : List Item := [([], .longYear), (sep, .zeroMonth)]
+def itsDate (sep : Bytes) : List Item := [([], .longYear), (sep, .zeroMonth), (sep, .zeroDay)]
+def itsDatetime (d t c : Bytes) : List Item :=
+  [([], .longYear), (d, .zeroMonth), (d, .zeroDay), (t, .hour), (c, .zeroMinute), (c, .zeroSecond)]
+
+theorem ok_year : ItemOK (([], .longYear) : Item) := Or.inr ⟨rfl, rfl⟩
+theorem ok_sep (sep : Bytes) (h : sep.all sepc = true) (k : Std) (hk : k ≠ .longYear) : ItemOK (sep, k) := Or.inl ⟨h, hk⟩
+
+theorem canon_year (s : Bytes) : Spec.Lang.year s = true ↔ Canon itsYear s := by
+  have hpat : Spec.Lang.fields [Sum.inl 4] s = Spec.Lang.fields (patOf itsYear) s := by
+    simp [patOf, itsYear, fields_inr_nil, width]
+  unfold Spec.Lang.year
+  rw [hpat]
+  constructor
+  · intro h
+    cases hf : Spec.Lang.fields (patOf itsYear) s with
+    | none => simp [hf] at h
+    | some ns =>
+      have hl : ∃ y, ns = [y] := by
+        simp only [patOf, itsYear, List.flatMap_cons, List.flatMap_nil, List.append_nil, fields_inr_nil, width,
+          Spec.Lang.fields] at hf
+        split at hf
+        · split at hf
+          · simp at hf; exact ⟨_, hf.symm⟩
+          · simp at hf
+        · simp at hf
+      obtain ⟨y, rfl⟩ := hl
+      obtain ⟨hs, hfit⟩ := fields_inv itsYear { year := y } s [y] hf (by simp [itsYear, Tm.get])
+      refine ⟨{ year := y }, hs, ?_, ?_, ?_⟩
+      · intro k hk
+        simp [kinds, itsYear] at hk; subst hk
+        have := hfit ([], .longYear) (by simp [itsYear])
+        simpa [fits, rangeOK, Tm.get] using this
+      · intro k hk
+        cases k <;> simp [kinds, itsYear] at hk <;> simp [Tm.get]
+      · simp [dayOK, Tm.get, daysIn]
+  · rintro ⟨T, hs, hr, _, _⟩
+    have := fields_render itsYear T (fun it hi => rangeOK_fits (hr it.2 (by simp [kinds]; exact ⟨it.1, hi⟩)))
+    rw [hs, this]; rfl
+
+
+theorem canon_y2m (sep s : Bytes) : Spec.Lang.year2month sep s = true ↔ Canon (itsY2M sep) s := by
+  have hpat : Spec.Lang.fields [Sum.inl 4, Sum.inr sep, Sum.inl 2] s = Spec.Lang.fields (patOf (itsY2M sep)) s := by
+    simp [patOf, itsY2M, fields_inr_nil, width]
+  unfold Spec.Lang.year2month
+  rw [hpat]
+  constructor
+  · intro h
+    split at h
+    · rename_i y m hf
+      simp only [Bool.and_eq_true, decide_eq_true_eq] at h
+      obtain ⟨hs, hfit⟩ := fields_inv (itsY2M sep) { year := y, month := some m } s [y, m] hf (by simp [itsY2M, Tm.get])
+      refine ⟨_, hs, ?_, ?_, ?_⟩
+      · intro k hk
+        simp [kinds, itsY2M] at hk
+        rcases hk with rfl | rfl
+        · have := hfit ([], .longYear) (by simp [itsY2M]); simpa [fits, rangeOK, Tm.get] using this
+        · simpa [rangeOK, Tm.get] using h
+      · intro k hk
+        cases k <;> simp [kinds, itsY2M] at hk <;> simp [Tm.get]
+      · have h28 : ∀ m y, 28 ≤ daysIn m y := by
+          intro m y; unfold daysIn; split <;> (try split) <;> (try split) <;> omega
+        have := h28 m y
+        simp only [dayOK, Tm.get, Option.getD]; omega
+    · simp at h
+  · rintro ⟨T, hs, hr, _, _⟩
+    have := fields_render (itsY2M sep) T (fun it hi => rangeOK_fits (hr it.2 (by simp [kinds]; exact ⟨it.1, hi⟩)))
+    rw [hs, this]
+    have hm := hr .zeroMonth (by simp [kinds, itsY2M])
+    simp only [rangeOK] at hm
+    simp [itsY2M, hm.1, hm.2]
+
+theorem canon_date (sep s : Bytes) : Spec.Lang.date sep s = true ↔ Canon (itsDate sep) s := by
+  have hpat : Spec.Lang.fields [Sum.inl 4, Sum.inr sep, Sum.inl 2, Sum.inr sep, Sum.inl 2] s
+      = Spec.Lang.fields (patOf (itsDate sep)) s := by
+    simp [patOf, itsDate, fields_inr_nil, width]
+  unfold Spec.Lang.date
+  rw [hpat]
+  constructor
+  · intro h
+    split at h
+    · rename_i y m d hf
+      simp only [Bool.and_eq_true, decide_eq_true_eq] at h
+      obtain ⟨hs, hfit⟩ := fields_inv (itsDate sep) { year := y, month := some m, day := some d } s [y, m, d] hf
+        (by simp [itsDate, Tm.get])
+      refine ⟨_, hs, ?_, ?_, ?_⟩
+      · intro k hk
+        simp [kinds, itsDate] at hk
+        rcases hk with rfl | rfl | rfl
+        · have := hfit ([], .longYear) (by simp [itsDate]); simpa [fits, rangeOK, Tm.get] using this
+        · simp only [rangeOK, Tm.get, Option.getD]; omega
+        · have := hfit (sep, .zeroDay) (by simp [itsDate]); simpa [fits, rangeOK, Tm.get] using this
+      · intro k hk
+        cases k <;> simp [kinds, itsDate] at hk <;> simp [Tm.get]
+      · simp only [dayOK, Tm.get, Option.getD, daysIn_eq]; omega
+    · simp at h
+  · rintro ⟨T, hs, hr, _, hday⟩
+    have := fields_render (itsDate sep) T (fun it hi => rangeOK_fits (hr it.2 (by simp [kinds]; exact ⟨it.1, hi⟩)))
+    rw [hs, this]
+    have hm := hr .zeroMonth (by simp [kinds, itsDate])
+    simp only [rangeOK] at hm
+    simp only [dayOK, daysIn_eq] at hday
+    have e : T.get .longYear = T.year := rfl
+    simp [itsDate, hm.1, hm.2, hday.1, ← e, hday.2]
+
+theorem canon_datetime (d t c s : Bytes) : Spec.Lang.datetime d t c s = true ↔ Canon (itsDatetime d t c) s := by
+  have hpat : Spec.Lang.fields [Sum.inl 4, Sum.inr d, Sum.inl 2, Sum.inr d, Sum.inl 2, Sum.inr t, Sum.inl 2, Sum.inr c,
+      Sum.inl 2, Sum.inr c, Sum.inl 2] s = Spec.Lang.fields (patOf (itsDatetime d t c)) s := by
+    simp [patOf, itsDatetime, fields_inr_nil, width]
+  unfold Spec.Lang.datetime
+  rw [hpat]
+  constructor
+  · intro h
+    split at h
+    · rename_i y mo da hh mi se hf
+      simp only [Bool.and_eq_true, decide_eq_true_eq] at h
+      obtain ⟨hs, hfit⟩ := fields_inv (itsDatetime d t c)
+        { year := y, month := some mo, day := some da, hour := hh, min := mi, sec := se } s [y, mo, da, hh, mi, se] hf
+        (by simp [itsDatetime, Tm.get])
+      refine ⟨_, hs, ?_, ?_, ?_⟩
+      · intro k hk
+        simp [kinds, itsDatetime] at hk
+        rcases hk with rfl | rfl | rfl | rfl | rfl | rfl
+        · have := hfit ([], .longYear) (by simp [itsDatetime]); simpa [fits, rangeOK, Tm.get] using this
+        · simp only [rangeOK, Tm.get, Option.getD]; omega
+        · have := hfit (d, .zeroDay) (by simp [itsDatetime]); simpa [fits, rangeOK, Tm.get] using this
+        · simp only [rangeOK, Tm.get]; omega
+        · simp only [rangeOK, Tm.get]; omega
+        · simp only [rangeOK, Tm.get]; omega
+      · intro k hk
+        cases k <;> simp [kinds, itsDatetime] at hk
+      · simp only [dayOK, Tm.get, Option.getD, daysIn_eq]; omega
+    · simp at h
+  · rintro ⟨T, hs, hr, _, hday⟩
+    have := fields_render (itsDatetime d t c) T (fun it hi => rangeOK_fits (hr it.2 (by simp [kinds]; exact ⟨it.1, hi⟩)))
+    rw [hs, this]
+    have hm := hr .zeroMonth (by simp [kinds, itsDatetime])
+    have hh := hr .hour (by simp [kinds, itsDatetime])
+    have hmi := hr .zeroMinute (by simp [kinds, itsDatetime])
+    have hse := hr .zeroSecond (by simp [kinds, itsDatetime])
+    simp only [rangeOK] at hm hh hmi hse
+    simp only [dayOK, daysIn_eq] at hday
+    have e : T.get .longYear = T.year := rfl
+    have e1 : T.get .hour ≤ 23 := by omega
+    have e2 : T.get .zeroMinute ≤ 59 := by omega
+    have e3 : T.get .zeroSecond ≤ 59 := by omega
+    simp [itsDatetime, hm.1, hm.2, hday.1, ← e, hday.2, e1, e2, e3]
+
+
+theorem strict_of (its : List Item) (hOK : ∀ it ∈ its, ItemOK it) (hnd : (kinds its).Nodup) (hsl : SecLast its)
+    (s : Bytes) (sp : Bool) (h : sp = true ↔ Canon its s) : parseStrict (layoutOf its) s = some sp := by
+  obtain ⟨hb, hiff⟩ := model_iff its hOK hnd hsl s
+  exact conclude _ sp _ hb hiff h
+
+/-- `year`: the strict parser on the layout `2006` = four digits -/
+theorem strict_year (s : Bytes) : parseStrict [50, 48, 48, 54] s = some (Spec.Lang.year s) := by
+  have := strict_of itsYear (by simp [itsYear, ok_year]) (by simp [kinds, itsYear]) (by simp [SecLast, itsYear]) s _ (canon_year s)
+  simpa [layoutOf, itsYear, stdText] using this
+
+theorem strict_y2m (sep s : Bytes) (h : sep.all sepc = true) :
+    parseStrict ([50, 48, 48, 54] ++ sep ++ [48, 49]) s = some (Spec.Lang.year2month sep s) := by
+  have := strict_of (itsY2M sep)
+    (by intro it hi; simp [itsY2M] at hi; rcases hi with rfl | rfl
+        · exact ok_year
+        · exact ok_sep sep h _ (by decide))
+    (by simp [kinds, itsY2M]) (by simp [SecLast, itsY2M]) s _ (canon_y2m sep s)
+  simpa [layoutOf, itsY2M, stdText] using this
+
+theorem strict_date (sep s : Bytes) (h : sep.all sepc = true) :
+    parseStrict ([50, 48, 48, 54] ++ sep ++ [48, 49] ++ sep ++ [48, 50]) s = some (Spec.Lang.date sep s) := by
+  have := strict_of (itsDate sep)
+    (by intro it hi; simp [itsDate] at hi; rcases hi with rfl | rfl | rfl
+        · exact ok_year
+        · exact ok_sep sep h _ (by decide)
+        · exact ok_sep sep h _ (by decide))
+    (by simp [kinds, itsDate]) (by simp [SecLast, itsDate]) s _ (canon_date sep s)
+  simpa [layoutOf, itsDate, stdText] using this
+
+theorem strict_datetime (d t c s : Bytes) (hd : d.all sepc = true) (ht : t.all sepc = true) (hc : c.all sepc = true) :
+    parseStrict ([50, 48, 48, 54] ++ d ++ [48, 49] ++ d ++ [48, 50] ++ t ++ [49, 53] ++ c ++ [48, 52] ++ c ++ [48, 53]) s
+      = some (Spec.Lang.datetime d t c s) := by
+  have := strict_of (itsDatetime d t c)
+    (by intro it hi; simp [itsDatetime] at hi; rcases hi with rfl | rfl | rfl | rfl | rfl | rfl
+        · exact ok_year
+        · exact ok_sep d hd _ (by decide)
+        · exact ok_sep d hd _ (by decide)
+        · exact ok_sep t ht _ (by decide)
+        · exact ok_sep c hc _ (by decide)
+        · exact ok_sep c hc _ (by decide))
+    (by simp [kinds, itsDatetime]) (by simp [SecLast, itsDatetime]) s _ (canon_datetime d t c s)
+  simpa [layoutOf, itsDatetime, stdText] using this
+
 end PGV.Proofs.TimeParse
